@@ -79,6 +79,25 @@ def generate(L):
         raise L.GenError(f"{rel}: skip-managed fast path changed")
     if "if !skip_managed_hooks && hook_requires_managed_repo_lookup(hook_name, hook_args, &stdin_data)" not in h:
         raise L.GenError(f"{rel}: managed part is no longer guarded by !skip_managed_hooks")
+    # which reference names make the reference-transaction hook do the repository lookup (last test of the arm)
+    lk = L.find_fn(src, "hook_requires_managed_repo_lookup", rel)
+    i_arm = lk.find('"reference-transaction" =>')
+    if i_arm < 0:
+        raise L.GenError(f"{rel}: reference-transaction arm of hook_requires_managed_repo_lookup not found")
+    arm = lk[i_arm:]
+    j_in = arm.find("if in_rebase_or_cherry_pick")
+    mm = re.search(r"parse_whitespace_fields\(stdin_data, 3\)\s*\.iter\(\)\s*\.any\(\|fields\|\s*\{?(.*?)\}?\s*\)\s*\}\s*_ => true",
+                   arm[j_in:] if j_in >= 0 else "", re.S)
+    if j_in < 0 or not mm:
+        raise L.GenError(f"{rel}: the final reference-name filter of the reference-transaction arm not found")
+    flt = mm.group(1)
+    if "fields.len() >= 3" not in flt:
+        raise L.GenError(f"{rel}: reference-name filter changed shape: {flt.strip()[:120]}")
+    on_head = bool(re.search(r'fields\[2\]\s*==\s*"HEAD"', flt))
+    on_heads = bool(re.search(r'fields\[2\]\.starts_with\("refs/heads/"\)', flt))
+    rest = re.sub(r'fields\[2\]\s*==\s*"HEAD"|fields\[2\]\.starts_with\("refs/heads/"\)|fields\.len\(\) >= 3|[\s()&|]', "", flt)
+    if rest:
+        raise L.GenError(f"{rel}: reference-name filter has a test the model does not know: {rest[:80]}")
     m = re.search(r'pub const ENV_SKIP_MANAGED_HOOKS\s*:\s*&str\s*=\s*' + L.STR_LIT, src)
     if not m:
         raise L.GenError(f"{rel}: ENV_SKIP_MANAGED_HOOKS not found")
@@ -162,6 +181,8 @@ def generate(L):
         "Definition env_skip_managed_hooks : list N := " + L.coq_str(L.unescape(env_skip)) + ".",
         "Definition wrapper_child_sets_skip : bool := true.",
         "Definition skip_guards_managed_part : bool := true.",
+        "Definition reftx_lookup_on_HEAD : bool := " + L.coq_bool(on_head) + ".",
+        "Definition reftx_lookup_on_refs_heads : bool := " + L.coq_bool(on_heads) + ".",
         "Definition rewrite_stash_default_debug : bool := " + m.group(1) + ".",
         "Definition rewrite_stash_default_release : bool := " + m.group(2) + ".",
     ]
